@@ -2,6 +2,7 @@ package main
 
 import (
 	"fmt"
+	"os"
 	"sort"
 	"strings"
 	"sync"
@@ -293,6 +294,17 @@ func (p *printer) str(t *Term) string {
 		for _, a := range t.Args {
 			parts = append(parts, p.str(a))
 		}
+		if (t.Op == "forall" || t.Op == "exists") && len(t.Args) == 2 && t.Args[0].Sort == "binder" && os.Getenv("GOVC_QID") != "" {
+			// name the quantifier after its bound variable (z3's smt.qi.profile reports instantiation counts per qid)
+			q := strings.TrimPrefix(t.Args[0].Op, "((")
+			if i := strings.Index(q, " "); i > 0 {
+				if t.Args[1].Op == "!" {
+					parts[2] = strings.TrimSuffix(parts[2], ")") + " :qid " + strings.ReplaceAll(q[:i], "!", "_") + ")"
+				} else {
+					parts[2] = "(! " + parts[2] + " :qid " + strings.ReplaceAll(q[:i], "!", "_") + ")"
+				}
+			}
+		}
 		s = "(" + strings.Join(parts, " ") + ")"
 	}
 	if len(t.Args) > 0 && p.uses[t] > 1 && size(t) > 6 && !hasBound(t) {
@@ -364,6 +376,17 @@ const prelude = `(define-fun MIN64 () Int (- 9223372036854775808))
 
 // script renders assumptions + negated goal, with only the needed declarations.
 func script(assumptions []*Term, goal *Term, getValues []*Term) string {
+	{
+		seenA := map[*Term]bool{}
+		var uniq []*Term
+		for _, a := range assumptions {
+			if !seenA[a] {
+				seenA[a] = true
+				uniq = append(uniq, a)
+			}
+		}
+		assumptions = uniq
+	}
 	p := newPrinter()
 	all := append([]*Term{}, assumptions...)
 	all = append(all, goal)
